@@ -1,4 +1,5 @@
 import NfcVerif.Model.HistC01
+import NfcVerif.Model.T3Vendor
 open NfcVerif NfcVerif.Tlv NfcVerif.T34 NfcVerif.Hist
 
 /-!
@@ -11,6 +12,8 @@ or aborted by a fault on a state-changing command, with what a FRESH reader sees
        -> <res> <cmds> <view> | <res> <cmds> <view> | ...        (none / exc Name when activation finds no NDEF)
      attempts = <hex>:<n | l<k> | e<k>>,...   n: no fault, l<k>: command k not executed, e<k>: executed, answer lost
      view = what a fresh activation reads from the tag after the attempt
+  v3  <g|l|s> <0|1> <mcRw> <mcRd> <blocks>    vendor reader (`T3V.seeV`): generic / FeliCa Lite / Lite-S, plain or after
+       -> <view>                               authenticate(), MC_SP_REG_ALL_RW, MC_SP_REG_R_RESTR, blocks 0.. of the card
 -/
 
 def cfgOf (k : String) : Option Cfg :=
@@ -124,8 +127,14 @@ def h4 (v : T4.Variant) (cd : T4.Card) (atts : List (Bytes × Option Fault)) : S
       showRes s.2.1 ++ " " ++ joinC (s.1.map fun c => s!"{c.off}:{toHex c.data}") ++ " "
         ++ showPy showSeen (T4.see v { cd with file := s.2.2 }))
 
+def parseProduct (s : String) : Option T3V.Product :=
+  if s = "g" then some .generic else if s = "l" then some .lite else if s = "s" then some .liteS else none
+
 def handle (line : String) : String :=
   match line.splitOn " " with
+  | ["v3", p, au, rw, rd, mh] => match parseProduct p, rw.toNat?, rd.toNat?, parseHex mh with
+    | some p, some rw, some rd, some m => showPy showSeen (T3V.seeV p (au = "1") ⟨m, rw, rd⟩)
+    | _, _, _, _ => "bad-op"
   | ["h12", r, k, mh, a] => match cfgOf k, parseHex mh, parseAttempts a with
     | some c, some m, some a => if r = "r" then h12 true c m a else if r = "a" then h12 false c m a else "bad-op"
     | _, _, _ => "bad-op"
